@@ -27,7 +27,8 @@ ObsOf(o) == IF o.done
 TraceInit == Init /\ l = 2
 
 \* what the harness saw must be exactly what the specification's action produces
-Logged == HasField(Ev.obs, "done") /\ ~HasField(Ev.obs, "error") /\ obs' = ObsOf(Ev.obs)
+Logged == \/ HasField(Ev.obs, "done") /\ ~HasField(Ev.obs, "error") /\ obs' = ObsOf(Ev.obs)
+          \/ IOEnv.VF_LENIENT = "1"     \* diagnosis only: follow the trace's calls, ignore what was seen
 Consume(name) == l <= TraceLen(sc) /\ Ev.ev = name /\ l' = l + 1
 
 TraceNext ==
@@ -38,5 +39,5 @@ TraceNext ==
     \/ Consume("Again") /\ Again /\ Logged
 
 TraceSpec == TraceInit /\ [][TraceNext]_tvars
-TraceOK == TraceConstraint(sc, l)
+TraceOK == TraceConstraint(sc, l) /\ ((IOEnv.VF_LENIENT = "1") => PrintT(<<"OBS", l, obs>>))
 =============================================================================
